@@ -1,6 +1,7 @@
 import PdfModel.Lemmas.Serialize
 import PdfModel.Lemmas.Indirect
 import PdfModel.Lemmas.SerializeS
+import PdfModel.Generated.Lexical
 
 /-!
   C04 — serialised objects parse back to the same value.
@@ -308,5 +309,23 @@ example :
             slice (objFrame 12 0 body).toArray lo hi == [97, 98, 99]
         | _ => false)
      | _ => false) = true := by decide +kernel
+
+end C04
+
+/-! ## Tie to the source: constants and byte classes (appended by the translator package)
+
+`Generated/Lexical.lean` is re-extracted from `pdf/src` by `./check` before this file is built. -/
+
+namespace C04
+
+/-- the bytes `serialize_name` writes verbatim (all others become `#xx`) are the ones of the source, and so are the delimiters the reader splits names at -/
+theorem constants_match_source :
+    ((List.range 256).filter (fun n => PdfLex.nameVerbatim (UInt8.ofNat n)) =
+      (List.range 256).filter (fun n => decide (Generated.nameVerbatimLo ≤ n) && decide (n ≤ Generated.nameVerbatimHi)
+        && !Generated.nameVerbatimExcept.contains n)) ∧
+    ((List.range 256).filter (fun n => PdfLex.isDelimiter (UInt8.ofNat n)) = Generated.lexDelimiters) := by
+  refine ⟨?_, ?_⟩
+  · first | decide +kernel | fail "constants_match_source (C04): the model's PdfLex.nameVerbatim does not match the source (Generated.nameVerbatimExcept, Generated.nameVerbatimHi, Generated.nameVerbatimLo, re-extracted from pdf/src)"
+  · first | decide +kernel | fail "constants_match_source (C04): the model's PdfLex.isDelimiter does not match the source (Generated.lexDelimiters, re-extracted from pdf/src)"
 
 end C04
